@@ -78,10 +78,10 @@ class Keccak(object):
             assert self.r
             r = self.r
         else:
-            self.setrate(r)
+            assert r<=1536
 
         #Absorbing phase
-        for Pi in self.iterblocks(M,bitlen):
+        for Pi in self.iterblocks(M,bitlen,r):
             Ps = State(self.w).load(Pi)
             S = self.f(S^Ps)
 
@@ -92,17 +92,18 @@ class Keccak(object):
             Z = Z//S.dump(r)
         return pack(Z[:self.outlen])
 
-    def iterblocks(self,M,bitlen=None):
+    def iterblocks(self,M,bitlen=None,r=None,duplexing=None):
+        if duplexing is None: duplexing = self.duplexing
         needed = len(M)*8
         # handle NIST MSB alignment to Keccak LSB alignment for last byte
         # (see Keccak SHA-3 submission §6.1):
         if bitlen:
             assert bitlen<=needed
             needed = bitlen
-            if not self.duplexing:
+            if not duplexing:
                 b = Bits(M[-1:],size=needed%8)[::-1]
                 M = M[:needed//8]+bytes([b.ival])
-        r = self.r
+        if r is None: r = self.r
         br,rr = divmod(r,8)
         P = BytesIO(M)
         # init iterator loop:
@@ -125,8 +126,7 @@ class Keccak(object):
 
     # Duplex construction (see "Cryptographic Sponge Functions", http://sponge.noekeon.org)
     def duplex(self,m,bitlen=None,outlen=None):
-        self.duplexing = True
-        L = [x for x in self.iterblocks(m,bitlen)]
+        L = [x for x in self.iterblocks(m,bitlen,duplexing=True)]
         assert len(L)==1
         if outlen is None: outlen=self.r
         if not hasattr(self,'_S'):
